@@ -32,6 +32,7 @@ fn next() -> u64 {
 
 /// # Safety
 /// Same contract as getrandom(2): `buf` must be valid for `buflen` bytes.
+#[cfg(not(miri))]
 #[unsafe(no_mangle)]
 pub unsafe extern "C" fn getrandom(buf: *mut libc::c_void, buflen: libc::size_t, _flags: libc::c_uint) -> libc::ssize_t {
     let out = unsafe { std::slice::from_raw_parts_mut(buf as *mut u8, buflen) };
